@@ -6,7 +6,7 @@ from pcv import core
 P = "PcVerif.Props.C19."
 THEOREMS = [P + t for t in ["adjust_affine_filter", "merge_runs", "merge_others_untouched", "merge_idempotent", "runs_flatten", "runs_uniform", "merged_neighbours_differ",
                            "adjust_nodes_sublist", "adjust_mem_iff", "adjust_length", "retime_duration", "adjust_none_dropped",
-                           "adjust_keeps_sorted", "adjust_identity", "merge_no_concurrent", "merge_node_count", "merge_keeps_each", "merge_length_le"]]
+                           "adjust_keeps_sorted", "adjust_identity", "merge_no_concurrent", "merge_node_count", "merge_keeps_each", "merge_length_le", "adjust_drops_prefix"]]
 
 
 def make(tier, seed):
